@@ -61,6 +61,7 @@ class BridgeReplay:
         bridge = SwitcherBridge(self.on_device, ports)
         task = None
         on_running = False
+        limbo = False
         self.cur_port = 0
         nsent = 0
         for n, st in enumerate(self.beh):
@@ -70,6 +71,12 @@ class BridgeReplay:
                 task = asyncio.ensure_future(bridge.start())
             elif a in ("StartPort", "StartDone"):
                 await asyncio.sleep(0)
+                if st["exp"]["at"] == 0:
+                    # the start has finished in the specification: let the real one finish too, however many awaits it takes
+                    for _ in range(40):
+                        if task is None or task.done():
+                            break
+                        await asyncio.sleep(0)
             elif a == "Stop":
                 await bridge.stop()
                 self.queues = {}
@@ -96,7 +103,7 @@ class BridgeReplay:
                     self.fail_callback = self.rng.random() < 0.25       # the user's callback may fail on any invocation
                     if ep is not None and not ep.closing:
                         self.loop.call_soon(vnet.VNet._deliver, ep, data)
-                    await asyncio.sleep(0)
+                    await vnet.settle(8)          # a bridge may hand the datagram over in a later loop cycle
                     self.fail_callback = False
             exp = st["exp"]
             if task is not None and task.done():
@@ -114,6 +121,14 @@ class BridgeReplay:
                 want = [s for s in exp["delivered"][k] if s not in self.others]
                 got = [s for s in self.delivered.get(PORTMAP[k + 1], []) if s not in self.others]
                 checks.append((f"delivered-port-{k + 1}", want, got))
+            if exp["at"] != 0:
+                checks = []           # inside start(): not compared (see Gen_Bridge)
+            if a == "StartPort" and exp["at"] == 0 and exp["raised"]:
+                limbo = True          # a start failed: what it may have opened and closed on the way is released at the next cycle
+            elif a == "Cycle":
+                limbo = False
+            if limbo:
+                checks = [c for c in checks if c[0] != "ports-being-released"]
             for what, want, got in checks:
                 if want != got:
                     self.mismatch.append({"step": n, "action": a, "what": what, "expected": want, "observed": got})
